@@ -19,3 +19,6 @@ func SetSelect(at int) {}
 
 // SelectCount is 0 with the stock runtime.
 func SelectCount() int { return 0 }
+
+// Goid is not available with the stock runtime.
+func Goid() uint64 { return 0 }
